@@ -185,7 +185,7 @@ MIRSYM("search_budget", ["C03"],
        _lazy("e2_budget"))
 
 # ---------------------------------------------------------------- E2: tree steps (C01 C04 C15)
-_TREE_BOUNDS = "one tree, shapes {bucket; split(bucket|item, bucket|item)} (thorough: + depth 2), node ids concrete, item ids / bucket contents / zero-normal flags / side decisions symbolic over a 16-id universe, <= 6 stored items, 1..=2 new ids (thorough 3), split_after 1..=3; fresh node ids from the inlined ConcurrentNodeIds"
+_TREE_BOUNDS = "one tree, shapes {bucket; split(bucket|item, bucket|item)} (thorough: + depth 2), node ids concrete, item ids / bucket contents / zero-normal flags / side decisions symbolic over a 16-id universe, <= 6 stored items, 1..=2 new ids (thorough: 3 below depth-1 shapes, 2 below depth-2 shapes), split_after 1..=3; fresh node ids from the inlined ConcurrentNodeIds"
 MIRSYM("insert_items_step", ["C01", "C15", "C04"],
        "insert_items_in_file from any pre-state satisfying Inv: afterwards the tree reaches exactly I u N, each item once, no dangling/orphan node; every over-full bucket is reported in large_descendants by node id and everything reported is a bucket",
        _TREE_BOUNDS, _lazy("e2_tree", "insert_obligation"), site="Writer::insert_items_in_file")
